@@ -10,7 +10,7 @@ from ..execu import run
 from ..runner import short
 
 ID = "C07"
-N = {"quick": 4000, "thorough": 150000}
+N = {"quick": 30000, "thorough": 150000}
 TIME_BUDGET = {"quick": 45, "thorough": 480}
 MIN_NONTRIVIAL = {"quick": 200, "thorough": 2000}
 RULE = ("cases = a data class (Schema 3/4, DataClass 1/4) with 1-4 fields of type int / str / List[int] / Optional[int] that are "
